@@ -13,7 +13,8 @@
        kind, rcode, ans, hdrok, raw}           -> nil / error / message; addresses answered; the key
                                                   the store was handed ("" if none)
      W{node, host, path, gm,                   ServeHTTP; host is the Host header without its port
-       status, ctype, acao, body, bodyok}      -> status, headers, the nine JSON fields
+       status, ctype, acao, body, bodyok,      -> status, headers, the nine JSON fields,
+       nget}                                      how often the store was read
      F{id}                                     the other namespace writes under the same id
      SQ{node, name, inp, kind} / SW{node, host, status, body, bodyok}
                                                queries and reads of the free-running phase
@@ -89,6 +90,7 @@ TW == /\ Consume("W")
                       \cup R(E.status # 200 \/ (E.bodyok /\ E.ctype = "application/json" /\ E.acao = "*"),
                              "a 200 response is not the documented JSON object with its headers")
                       \cup R(others = {} \/ E.body \in Seen(seen, c.id), "the body is another identifier's record")
+                      \cup R(E.nget = w.reads, "the store was read " \o ToString(E.nget) \o " times, the contract says " \o ToString(w.reads))
                       \cup R(PWebSeesOwnDNS(obs, seen), "WebSeesOwnDNS")
                       \cup R(PWebOnlyCheckHosts(obs), "WebOnlyCheckHosts")
                       \cup R(PFreshOnSameNode(obs, latest), "FreshOnSameNode")
